@@ -402,7 +402,7 @@ func (f *Frame) bufAppend(b Term, n Term, at func(i Term) Term) {
 	e := f.e
 	ln, data := bufHeaps(e, f.st)
 	old := e.define(f.name("bl"), sel(ln, b))
-	e.assume(implies(f.guard, and(sle(i64(0), old), sle(old, i64(1<<47)))))
+	e.assume(implies(f.guard, and(sle(i64(0), old), sle(old, i64(1<<40)))))
 	row := sel(data, b)
 	var nr Term
 	if n.isC && n.c <= smallN {
@@ -426,7 +426,7 @@ func init() {
 	externModels["(*bytes.Buffer).Len"] = func(f *Frame, instr ssa.Instruction, c *ssa.CallCommon, args []Value, rt types.Type) Value {
 		ln, _ := bufHeaps(f.e, f.st)
 		r := f.e.define(f.name("blen"), sel(ln, args[0].T))
-		f.e.assume(implies(f.guard, and(sle(i64(0), r), sle(r, i64(1<<47)))))
+		f.e.assume(implies(f.guard, and(sle(i64(0), r), sle(r, i64(1<<40)))))
 		return Value{T: r}
 	}
 	externEffects["(*bytes.Buffer).Len"] = effNone
@@ -475,10 +475,10 @@ func init() {
 		e := f.e
 		ln, data := bufHeaps(e, f.st)
 		n := sel(ln, args[0].T)
-		e.assume(implies(f.guard, and(sle(i64(0), n), sle(n, i64(1<<47)))))
+		e.assume(implies(f.guard, and(sle(i64(0), n), sle(n, i64(1<<40)))))
 		reg := e.alloc(f.st, f.name("bbytes"))
 		cp := e.havoc(f.name("bcap"), SBV64)
-		e.assume(and(sle(n, cp), sle(cp, i64(1<<47))))
+		e.assume(and(sle(n, cp), sle(cp, i64(1<<40))))
 		hn, hs, h := byteHeap(e, f.st)
 		_ = hs
 		e.setHeap(f.st, hn, store(h, reg, sel(data, args[0].T)))
